@@ -178,6 +178,9 @@ def transpile(text, dict_compress=True, variables_as_digraphs=False) -> str:
     return vyxal.transpile.transpile(text, dict_compress, variables_as_digraphs)
 
 
+_code_cache: dict = {}
+
+
 def exec_py(code_text: str, stack: list, ctx: Context, budget: int = 2_000_000,
             wall: float = 20.0, ns: dict | None = None) -> Result:
     """exec() transpiled text the way main.execute_vyxal does: ONE namespace."""
@@ -189,11 +192,17 @@ def exec_py(code_text: str, stack: list, ctx: Context, budget: int = 2_000_000,
     ns["ctx"] = ctx
     res.ns = ns
     buf = io.StringIO()
-    try:
-        compiled = compile(code_text, "<vy>", "exec")
-    except BaseException as e:  # SyntaxError etc.
-        res.exc = e
-        return res
+    compiled = _code_cache.get(code_text)
+    if compiled is None:
+        try:
+            compiled = compile(code_text, "<vy>", "exec")
+        except BaseException as e:  # SyntaxError etc.
+            res.exc = e
+            return res
+        if len(code_text) < 400:
+            if len(_code_cache) > 20000:
+                _code_cache.clear()
+            _code_cache[code_text] = compiled
     try:
         with watchdog(wall), contextlib.redirect_stdout(buf), fuel(budget):
             exec(compiled, ns)
